@@ -4,6 +4,7 @@ import Cuke.Driver.Match
 import Cuke.Driver.Pipe
 import Cuke.Driver.Mon
 import Cuke.Driver.Attempt
+import Cuke.Driver.Sched
 /-! `cuke-driver`: one request per line on stdin, one response per line on stdout. -/
 open Cuke Cuke.Wire Cuke.Driver
 
@@ -20,6 +21,7 @@ def dispatch (line : String) : String :=
       | "pipe.run" => handlePipeRun args
       | "attempt.run" => handleAttemptRun args
       | "mon.c09" => handleMonC09 args
+      | "sched.run" => handleSchedRun args
       | "mon.c10" => handleMonC10 args
       | "harness.ended" => some "ok"
       | "mon.c01" => handleMonC01 args
